@@ -171,7 +171,7 @@ func evalC17(cs *c17Case) (vs []*Violation) {
 	}
 	add := func(rule, class, detail string) {
 		c := mkCase("C17", site, &Cfg{Flags: cs.Mode.Flags, ValCap: cs.Cap, HdrCap: -1}, buf, nil)
-		c.Extra = map[string]any{"case": cs}
+		c.Extra = map[string]any{"case": *cs} // a copy: callers re-use their case variables
 		vs = append(vs, &Violation{Property: "C17", Site: site, Rule: rule, Class: class, Detail: detail, Case: c})
 	}
 	defer recoverTo3(add)
@@ -868,7 +868,7 @@ func init() {
 	}
 	register("C17", &checkDef{fn: checkC17,
 		rule:        "E4: generated parameter lists (0-3 items from name x value menus, LWS at every legal gap with <= 2 non-empty, empty items, leading separators) x 25 modes (separator x terminator x URI-param/URI-hdr x entry point), expectations by construction; all 256 byte values in name and value positions per mode; GetViaBrSig metamorphic (depends only on first branch value); non-trivial = lists with >= 1 item",
-		quickBudget: 120 * time.Second, thorBudget: 20 * time.Minute})
+		quickBudget: 120 * time.Second, thorBudget: 35 * time.Minute})
 }
 
 func c17AtLimit(r *Run, modes []plMode) {
